@@ -854,3 +854,34 @@ func isErrorReturn(ret *ssa.Return) bool {
 	c, isConst := last.(*ssa.Const)
 	return !isConst || c.Value != nil
 }
+
+// ExtStore is a store through an address that is not a tracked local cell (memory owned by a caller: receiver, parameter,
+// global), with the terms of the address and of the stored value.
+type ExtStore struct {
+	Instr *ssa.Store
+	Addr  *Term
+	Val   *Term
+	Ev    *Eval
+}
+
+// ExtStores lists the stores to non-local memory of this activation and of the activations inlined into it.
+func (ev *Eval) ExtStores() []ExtStore {
+	var out []ExtStore
+	for _, b := range ev.Fn.Blocks {
+		for _, in := range b.Instrs {
+			switch x := in.(type) {
+			case *ssa.Store:
+				if _, _, ok := ev.resolveAddr(x.Addr); ok {
+					continue
+				}
+				out = append(out, ExtStore{Instr: x, Addr: ev.op(x.Addr, x), Val: ev.Resolve(ev.op(x.Val, x)), Ev: ev})
+			case *ssa.Call:
+				_ = ev.Term(x)
+				if ch, ok := ev.children[x]; ok {
+					out = append(out, ch.ExtStores()...)
+				}
+			}
+		}
+	}
+	return out
+}
